@@ -65,7 +65,10 @@ impl Justify {
     fn evicted(&self, prog: &Program, k: LKey) -> bool {
         match k {
             LKey::Node(n, a) if prog.nodes[n as usize].kind == Kind::Lru => {
-                self.live_before.get(n as usize).and_then(|r| r.get(a as usize)).copied().unwrap_or(1) == 0
+                // a result computed from untracked state is never evicted (C04 relies on it: the
+                // old value must survive so that an equal new value can be backdated)
+                let untracked = self.last(&k).map(|e| e.rec.untracked).unwrap_or(false);
+                !untracked && self.live_before.get(n as usize).and_then(|r| r.get(a as usize)).copied().unwrap_or(1) == 0
             }
             _ => false,
         }
